@@ -70,3 +70,30 @@ Theorem contiguous_slice_length {A} (l:list A) (a b : Z) : 0 <= a <= b -> b <= Z
 Proof. intros H1 H2. rewrite contiguous_slice by lia. rewrite firstn_length, skipn_length. lia. Qed.
 Example tiles_somewhere : slice_list [10;20;30;40;50] 1 3 1 ++ slice_list [10;20;30;40;50] 3 5 1 = [20;30;40;50] /\ slice_list [10;20;30] 0 3 1 = [10;20;30].
 Proof. split; reflexivity. Qed.
+
+(* STEP -1 from the last position down past the first: the sequence reversed *)
+Lemma nth_error_rev {A} (l:list A) k : (k < length l)%nat -> nth_error (rev l) k = nth_error l (length l - S k).
+Proof.
+  intros H. destruct l as [|d l0] eqn:E. { cbn in H. lia. } rewrite <- E in *.
+  rewrite (nth_error_nth' (rev l) d) by (rewrite rev_length; lia). rewrite (nth_error_nth' l d) by lia.
+  rewrite rev_nth by lia. reflexivity.
+Qed.
+Theorem reversed_slice {A} (l:list A) : slice_list l (-1) (- Z.of_nat (length l) - 1) (-1) = rev l.
+Proof.
+  unfold slice_list. set (len := Z.of_nat (length l)).
+  assert (Cs : clamp len (-1) (-1) = len - 1).
+  { unfold clamp. cbn [Z.ltb Z.compare]. destruct (-1 + len <? 0) eqn:E; [apply Z.ltb_lt in E|apply Z.ltb_ge in E]; lia. }
+  assert (Ce : clamp len (- len - 1) (-1) = -1).
+  { unfold clamp. destruct (- len - 1 <? 0) eqn:E; [|apply Z.ltb_ge in E; lia].
+    destruct (- len - 1 + len <? 0) eqn:E2; [reflexivity|apply Z.ltb_ge in E2; lia]. }
+  rewrite Cs, Ce.
+  assert (Sl : slice_len (len - 1) (-1) (-1) = len).
+  { unfold slice_len. cbn [Z.ltb Z.compare Z.opp]. destruct (-1 <? len - 1) eqn:E; [apply Z.ltb_lt in E|apply Z.ltb_ge in E]; [rewrite Z.div_1_r; lia|lia]. }
+  rewrite Sl. unfold len at 2. rewrite Nat2Z.id.
+  rewrite <- (firstn_all (rev l)) at 1. rewrite rev_length.
+  change (rev l) with (skipn 0 (rev l)) at 1. rewrite <- segment_by_positions by (rewrite rev_length; lia).
+  rewrite !flat_map_concat_map. f_equal. apply map_ext_in. intros k Hk. apply in_seq in Hk.
+  rewrite nth_error_rev by lia. replace (Z.to_nat (len - 1 + Z.of_nat k * -1)) with (length l - S k)%nat by lia. reflexivity.
+Qed.
+Example reversed_somewhere : slice_list [10;20;30] (-1) (-4) (-1) = [30;20;10].
+Proof. reflexivity. Qed.
